@@ -113,7 +113,7 @@ pub fn observe(w: &World) -> PuObs {
             positions.extend(r.positions);
         }
     }
-    let cfg = w.query::<pm::ConfigResponse, _>(&w.pool_manager, &pm::QueryMsg::Config {}).ok().map(|c| c.config);
+    let cfg = w.query::<pm::Config, _>(&w.pool_manager, &pm::QueryMsg::Config {}).ok();
     PuObs { pools: pools.pools, bal, supply, positions, cfg }
 }
 
@@ -571,4 +571,34 @@ impl Checker for PuChecker {
             None
         }
     }
+}
+
+/// One grid case over the pool universe: setup operations (all must be accepted, otherwise the point is
+/// skipped and counted) followed by the operation under test, evaluated by the same transition oracles
+/// as the explorations.
+#[derive(Clone, Debug, Serialize, Deserialize)]
+pub struct PuCase {
+    pub setup: Vec<PuOp>,
+    pub op: PuOp,
+}
+
+pub fn run_case(w: &mut World, case: &PuCase, oracles: &[PuOracle], rec: &mut Rec) -> bool {
+    let cfg = cfg();
+    restore_base(w, "pu-case", &cfg, |_| {});
+    let chk = PuChecker { name: "case".into(), seeds: vec![], alpha: Alpha::Core, oracles: oracles.to_vec() };
+    let mut g = PuGhost::default();
+    for op in &case.setup {
+        let pre = observe(w);
+        match chk.step(w, &g, &pre, op, rec) {
+            Some(g2) => g = g2,
+            None => {
+                rec.count("case_setup_refused");
+                return false;
+            }
+        }
+    }
+    let pre = observe(w);
+    let r = chk.step(w, &g, &pre, &case.op, rec);
+    rec.outcome(&chk.op_kind(&case.op), if r.is_some() { "ok" } else { "refused" });
+    true
 }
